@@ -94,6 +94,11 @@ def setup_env(srv, rng):
     return env
 
 
+def QueryFunctionPrim(f):
+    from kmip.core import misc
+    return misc.QueryFunction(f)
+
+
 def payload_of(resp):
     r = rig.Result(resp)
     return r, r.payload()
@@ -192,6 +197,20 @@ def calls(rng, env, version):
                                                       'derivation_data': b'dd'},
                                                      cryptographic_length=128, cryptographic_algorithm=CA.AES,
                                                      cryptographic_usage_mask=[M.ENCRYPT]), uid_is))
+    # KMIPProxy-level operations return result objects instead of raising
+    qf = rng.sample(list(E.QueryFunction)[:6], rng.randrange(1, 4))
+    out.append(('proxy.query', lambda c: c.proxy.query(query_functions=[QueryFunctionPrim(f) for f in qf]),
+                lambda res, p: None if [o.value if hasattr(o, 'value') else o for o in [getattr(x, 'value', x) for x in res.operations]] ==
+                [E.Operation(k[2]) for k in T.kids(p, T.T_OPERATION)] or
+                [getattr(getattr(x, 'value', x), 'value', getattr(x, 'value', x)) for x in res.operations] == [k[2] for k in T.kids(p, T.T_OPERATION)]
+                else 'returned operations %r, payload %r' % (res.operations, [k[2] for k in T.kids(p, T.T_OPERATION)])))
+    if version >= E.KMIPVersion.KMIP_1_1:
+        out.append(('proxy.discover_versions', lambda c: c.proxy.discover_versions(),
+                    lambda res, p: None if [(v.major, v.minor) for v in res.protocol_versions] ==
+                    [(T.val(k, T.T_PV_MAJOR), T.val(k, T.T_PV_MINOR)) for k in T.kids(p, T.T_PROTOCOL_VERSION)]
+                    else 'returned versions %r' % (res.protocol_versions,)))
+    out.append(('proxy.get_attribute_list', lambda c: c.proxy.get_attribute_list(uid_any),
+                lambda res, p: None if res.uid == first(p, T.T_UNIQUE_IDENTIFIER) else 'returned uid %r' % (res.uid,)))
     if version >= E.KMIPVersion.KMIP_2_0:
         out.append(('set_attribute', lambda c: c.set_attribute(env['sympre'].uid, attribute_name='Sensitive', attribute_value=True),
                     lambda res, p: None if res == first(p, T.T_UNIQUE_IDENTIFIER) else 'returned %r' % (res,)))
@@ -288,6 +307,16 @@ def run_case(ctx, case):
                         ctx.count('failures_compared')
                         cls = 'fail:%s' % ('nomsg' if it['message'] is None else 'msg')
                         ctx.cell(name, vname, cls, type(raised).__name__ if raised else 'returned')
+                        if raised is None and name.startswith('proxy.'):
+                            try:
+                                got = (result.result_status.value.value, result.result_reason.value.value,
+                                       result.result_message.value if result.result_message is not None else None)
+                            except Exception as e:
+                                got = ('unreadable', type(e).__name__, None)
+                            want = (it['status'], it['reason'], it['message'])
+                            if got != want:
+                                ctx.violation('%s|failure|fields' % name, 'result object carries %r, the response says %r' % (got, want), detail)
+                            continue
                         if raised is None:
                             ctx.violation('%s|failure|returned' % name, '%s returned %r for a response with status %s reason %s'
                                           % (name, result, it['status'], it['reason']), detail)
